@@ -96,8 +96,12 @@ def _downgrade_opaque(prog: Program, res: Result) -> None:
                     if m is not None:
                         cands.append(m)
             for c in cands:
+                # a finding located at the `def` line speaks about the
+                # whole function; one with its own line about that statement
+                precise = c is fi and line.isdigit() and int(line) != getattr(
+                    fi.node, "lineno", -1) and "<local>" in f.context
                 reasons += prog.opaque_context(
-                    c, int(line) if c is fi and line.isdigit() else None)
+                    c, int(line) if precise else None)
         for q in f.context:
             if q in prog.functions:
                 reasons += prog.opaque_context(prog.functions[q])
